@@ -1,5 +1,5 @@
 """property id -> rules, explanation of what is / is not decided"""
-from rules import r_coord
+from rules import r_coord, r_keyid
 
 PROPS = {
     "C01": {
@@ -7,6 +7,20 @@ PROPS = {
         "explanation": "Decides structural clauses of 'no stuck output': (R-COORD) every State variant created at a "
                        "coordinate is removable by Release at that coordinate and the three coordinate predicates agree.",
         "not_decided": "bounded-time liveness over all histories; diff logic prev_keys/cur_keys; timeout arithmetic",
+    },
+    "C11": {
+        "rules": [r_keyid.run_all],
+        "level": "proof",
+        "explanation": "Decides: (a) OsCode and KeyCode have identical discriminant sets and are repr(u16) — the exact soundness "
+                       "condition of every enum transmute in the analysed crates, which are enumerated; (b) each arm n of "
+                       "from_u16_linux builds the variant whose discriminant is n, every variant has an arm, and as_u16 is the "
+                       "plain cast (so the tables are inverse value for value); (d) every non-constant key code reaching "
+                       "KbdOut key output passes the reserved-range test (value-set data-flow), constants are outside the range; "
+                       "(f) in the Linux event loop only keys in MAPPED_KEYS (or scroll events) reach the state machine. "
+                       "Finite obligations, all discharged or reported.",
+        "not_decided": "name->code table vs the documentation; Windows/macOS tables (targets not installable offline); "
+                       "that mapped_keys equals defsrc+deflayermap inputs (a run-time set computation); zippychord's configured "
+                       "output characters are trusted to the parser's character table",
     },
 }
 
